@@ -34,7 +34,7 @@ def bounded(check):
     except ValueError:
         info = {"error": (p.stderr or p.stdout)[-400:]}
     out = dict(name="interpreted == compiled boolean terms; select/find == reference on small forests", level="bounded",
-               bound="boolean terms of depth <= %d over 6 leaves on 7 values; every forest with <= %d nodes (names a/b, attrs (), (1,), (1,2)), "
+               bound="boolean terms of depth <= %d over 10 leaves (incl. eq / ieq, startswith / istartswith over one argument) on 7 values; every forest with <= %d nodes (names a/b, attrs (), (1,), (1,2), (x,), (x,1); 19 queries incl. raising callables in attribute positions), "
                      "13 one-level and 20 two-level queries, deep x roots" % (d, n),
                result=info, violation=(p.returncode == 1), error=(p.returncode not in (0, 1)))
     if p.returncode == 1:
